@@ -290,6 +290,34 @@ def gen_op(rng, W):
     return {"t": "create", "e": ["netlist", 0]}
 
 
+def scenario_prefix(rng):
+    """directed openings for the rarer mechanisms (policy conversion of a populated container, mixed-case
+    identifier renames, an add refused on its second key); the random walk continues from there"""
+    r = rng.random()
+    leafk = rng.choice(["port", "cable", "instance"])
+    bad = rng.choice(["1x", "a-b", "&"])
+    if r < 0.35:
+        ops = [{"t": "create", "e": ["definition", 0]}, {"t": "create", "e": [leafk, 0]},
+               {"t": "setKey", "e": [leafk, 0], "k": "ident", "v": rng.choice([bad, "Ab"])},
+               {"t": "attach", "p": ["definition", 0], "c": [leafk, 0]}]
+        if rng.random() < 0.5:
+            ops.append({"t": "setNs", "e": ["definition", 0], "pol": "EDIF"})
+        else:
+            ops += [{"t": "setDefault", "pol": "EDIF"}, {"t": "create", "e": ["library", 0]},
+                    {"t": "attach", "p": ["library", 0], "c": ["definition", 0]}]
+        return ops
+    if r < 0.7:
+        return [{"t": "setDefault", "pol": "EDIF"}, {"t": "create", "e": ["definition", 0]}, {"t": "create", "e": [leafk, 0]}, {"t": "create", "e": [leafk, 1]},
+                {"t": "setKey", "e": [leafk, 0], "k": "ident", "v": rng.choice(["Ab", "aB", "A"])}, {"t": "attach", "p": ["definition", 0], "c": [leafk, 0]},
+                {"t": "setKey", "e": [leafk, 0], "k": "ident", "v": rng.choice(["b_", "ab", "a"])}, {"t": "attach", "p": ["definition", 0], "c": [leafk, 1]},
+                {"t": "setKey", "e": [leafk, 1], "k": "ident", "v": rng.choice(["ab", "AB", "a"])}]
+    return [{"t": "setDefault", "pol": "EDIF"}, {"t": "create", "e": ["definition", 0]}, {"t": "create", "e": [leafk, 0]}, {"t": "create", "e": [leafk, 1]},
+            {"t": "setKey", "e": [leafk, 0], "k": "name", "v": "a"}, {"t": "attach", "p": ["definition", 0], "c": [leafk, 0]},
+            {"t": "setKey", "e": [leafk, 1], "k": "ident", "v": "ab"}, {"t": "setKey", "e": [leafk, 1], "k": "name", "v": "a"},
+            {"t": "attach", "p": ["definition", 0], "c": [leafk, 1]}, {"t": "create", "e": [leafk, 2]},
+            {"t": "setKey", "e": [leafk, 2], "k": "ident", "v": "AB"}, {"t": "attach", "p": ["definition", 0], "c": [leafk, 2]}]
+
+
 def run_script(ops_or_len, rng, drv, res, fast=True):
     W = NWorld()
     namespace_manager.default = "DEFAULT"
@@ -298,9 +326,10 @@ def run_script(ops_or_len, rng, drv, res, fast=True):
     gen = isinstance(ops_or_len, int)
     n = ops_or_len if gen else len(ops_or_len)
     script = []
+    prefix = scenario_prefix(rng) if gen and rng.random() < 0.3 else []
     try:
         for k in range(n):
-            op = gen_op(rng, W) if gen else ops_or_len[k]
+            op = (prefix[k] if k < len(prefix) else gen_op(rng, W)) if gen else ops_or_len[k]
             if op["t"] != "create" and any(W.get(op[f]) is None for f in ("e", "p", "c") if f in op):
                 continue        # shrinking removed the create op of an operand
             if op["t"] == "create" and W.get(op["e"]) is not None:
@@ -423,7 +452,7 @@ def run(ctx):
         drv.close()
         ctx.merge_shard(res)
         return
-    n_scripts = ctx.scale(12, 120)
+    n_scripts = ctx.scale(30, 200)
     length = ctx.scale(50, 90)
     run_shards(ctx, shard, [(pid, ctx.tier, ctx.seed, i, n_scripts, length, True) for i in range(16)])
     if ctx.tier == "thorough":
